@@ -70,6 +70,8 @@ type ResourcePool struct {
 	baseCapacity sync2.AtomicInt64
 	maxCapacity  sync2.AtomicInt64
 	lock         *sync.Mutex
+	resizeLock   sync.Mutex        // serializes ScaleCapacity: one resize at a time
+	shrinking    sync2.AtomicInt64 // slots a running ScaleCapacity still has to take out
 	scaleOutTime int64
 	scaleInTodo  chan int8
 	Dynamic      bool
@@ -344,27 +346,42 @@ func (rp *ResourcePool) ScaleCapacity(capacity int) error {
 		return fmt.Errorf("capacity %d is out of range", capacity)
 	}
 
+	// One resize at a time: a shrink waits for the slots it takes out, and a
+	// second resize (in particular Close) must neither count those slots as its
+	// own nor close the channel under it.
+	rp.resizeLock.Lock()
+	defer rp.resizeLock.Unlock()
+
 	// Atomically swap new capacity with old, but only
-	// if old capacity is non-zero.
+	// if old capacity is non-zero. rp.lock makes the swap atomic
+	// with respect to scaleOutResources.
 	var oldcap int
+	rp.lock.Lock()
 	for {
 		oldcap = int(rp.capacity.Get())
 		if oldcap == 0 {
+			rp.lock.Unlock()
 			return ErrClosed
 		}
 		if oldcap == capacity {
+			rp.lock.Unlock()
 			return nil
 		}
 		if rp.capacity.CompareAndSwap(int64(oldcap), int64(capacity)) {
 			break
 		}
 	}
+	if capacity < oldcap {
+		rp.shrinking.Set(int64(oldcap - capacity))
+	}
+	rp.lock.Unlock()
 	verifStep("scale.afterCAS")
 
 	if capacity < oldcap {
 		for i := 0; i < oldcap-capacity; i++ {
 			verifStep("scale.shrinkLoop")
 			wrapper := <-rp.resources
+			rp.shrinking.Add(-1)
 			if wrapper.resource != nil {
 				wrapper.resource.Close()
 				rp.active.Add(-1)
@@ -400,7 +417,9 @@ func (rp *ResourcePool) scaleOutResources() (resourceWrapper, bool) {
 // 扩容并获取连接, 外层加锁了，所以这边不加锁
 func (rp *ResourcePool) AddCapacityResource() (resourceWrapper, bool) {
 	capacity := int(rp.capacity.Get())
-	if capacity < 0 || capacity >= int(rp.maxCapacity.Get()) {
+	// A closed or closing pool (capacity 0) is not reopened, and the slots a
+	// pending shrink has not yet taken out still exist.
+	if capacity <= 0 || capacity+int(rp.shrinking.Get()) >= int(rp.maxCapacity.Get()) {
 		return resourceWrapper{}, false
 	}
 	verifStep("addCapacity.checked")
